@@ -209,10 +209,13 @@ func ruleExternalReset(c *Ctx, dv *dev, fn *ssa.Function, rule string) {
 				for _, hi := range hb.Instrs {
 					var ops [8]*ssa.Value
 					for _, op := range hi.Operands(ops[:0]) {
-						if op != nil && *op != nil && derivesFromField(*op, dv.fields["externalNoteTracker"], map[ssa.Value]bool{}) {
+						if op == nil || *op == nil {
+							continue
+						}
+						if derivesFromField(*op, dv.fields["externalNoteTracker"], map[ssa.Value]bool{}) {
 							touches = true
 						}
-						if fa, ok := (*op).(*ssa.FieldAddr); ok && op != nil && fieldOfAddr(fa) == dv.fields["externalNoteTracker"] {
+						if fa, ok := (*op).(*ssa.FieldAddr); ok && fieldOfAddr(fa) == dv.fields["externalNoteTracker"] {
 							touches = true
 						}
 					}
